@@ -30,49 +30,49 @@ pub fn all() -> Vec<Property> {
             id: "C01",
             rule: "layer1: configuration from the full product flavour x policy x limit x ttl x max_memory x weight x value type and a history of get/put/put_result/advance/clear decoded from bytes; non-trivial = a hit is served after an earlier eviction, expiry or re-store and the case touches >= 2 keys; distinct = hash of the decoded case",
             assumptions: L1_ASSUME,
-            parts: vec![l1_part("core", l1::run_c01, l1::desc_c01, 60_000, 1_000_000, &["hit_after_disturbance", "flavour_async", "flavour_thread", "flavour_global"])],
+            parts: vec![l1_part("core", l1::run_c01, l1::desc_c01, 400_000, 8_000_000, &["hit_after_disturbance", "flavour_async", "flavour_thread", "flavour_global"])],
             custom: None,
         },
         Property {
             id: "C04",
             rule: "layer1: limit N in 1..4, key alphabet N+1..N+4, all policies x flavours, with/without ttl and max_memory; after every operation |store| <= N and the removed set is explainable by exactly one eviction per overflow; non-trivial = at least one overflowing store; distinct = hash of the decoded case",
             assumptions: L1_ASSUME,
-            parts: vec![l1_part("core", l1::run_c04, l1::desc_c04, 60_000, 1_000_000, &["overflow", "flavour_async", "flavour_thread", "flavour_global"])],
+            parts: vec![l1_part("core", l1::run_c04, l1::desc_c04, 400_000, 8_000_000, &["overflow", "flavour_async", "flavour_thread", "flavour_global"])],
             custom: None,
         },
         Property {
             id: "C05",
             rule: "layer1: max_memory M in {64..4096}, value sizes drawn relative to M (<<M, M/4, M/2, M-1, M, M+1, 2M) over 8 value types; after every store total footprint <= M, oversize values rejected without displacing others, removed set explainable by policy-ordered evictions that stop as soon as the total fits; estimate_memory() compared with the harness footprint for every stored value; non-trivial = a memory eviction, an oversize rejection or an exact fit happened",
             assumptions: L1_ASSUME,
-            parts: vec![l1_part("core", l1::run_c05, l1::desc_c05, 50_000, 800_000, &["memory_pressure", "flavour_async", "flavour_thread", "flavour_global"])],
+            parts: vec![l1_part("core", l1::run_c05, l1::desc_c05, 400_000, 8_000_000, &["memory_pressure", "flavour_async", "flavour_thread", "flavour_global"])],
             custom: None,
         },
         Property {
             id: "C06",
             rule: "layer1: ttl T in 1..3, advances from {T-1s, T-1ns, T, T+1ns, T+1s, 250ms, ...}, realtime phase in {0, .25, .5, .999999999}s; sync: age >= T never served and purged, age < T served; async: age >= T never served and purged, age < T-1s served, in between either; non-trivial = lookup of a resident entry at an age within 1 s of T",
             assumptions: L1_ASSUME,
-            parts: vec![l1_part("core", l1::run_c06, l1::desc_c06, 60_000, 1_000_000, &["near_ttl_boundary", "expiry", "flavour_async", "flavour_thread", "flavour_global"])],
+            parts: vec![l1_part("core", l1::run_c06, l1::desc_c06, 400_000, 8_000_000, &["near_ttl_boundary", "expiry", "flavour_async", "flavour_thread", "flavour_global"])],
             custom: None,
         },
         Property {
             id: "C07",
             rule: "layer1: FIFO and LRU only, limits 1..4 and/or memory limits; every eviction removes the entry with minimal store sequence (FIFO) / minimal use sequence (LRU); non-trivial = an eviction at which the FIFO victim and the LRU victim differ",
             assumptions: L1_ASSUME,
-            parts: vec![l1_part("core", l1::run_c07, l1::desc_c07, 50_000, 800_000, &["fifo_lru_victims_differ", "memory_pressure", "overflow", "flavour_async", "flavour_thread", "flavour_global"])],
+            parts: vec![l1_part("core", l1::run_c07, l1::desc_c07, 400_000, 8_000_000, &["fifo_lru_victims_differ", "memory_pressure", "overflow", "flavour_async", "flavour_thread", "flavour_global"])],
             custom: None,
         },
         Property {
             id: "C08",
             rule: "layer1: LFU/ARC/TLRU, capacities 1..4, ttl in {none,2,3,5}, frequency_weight in {none,0.1,0.3,1,1.5,3}, whole-second advances; the victim is among the minimisers of hits (LFU), hits x rank (ARC), hits^w x rank x remaining-lifetime (TLRU), rank 1 = least recently used, either competition convention, relative tolerance 1e-9; non-trivial = an eviction where the minimiser set is a proper subset of the candidates and not all candidates have zero hits",
             assumptions: L1_ASSUME,
-            parts: vec![l1_part("core", l1::run_c08, l1::desc_c08, 60_000, 1_000_000, &["score_decides", "flavour_async", "flavour_thread", "flavour_global"])],
+            parts: vec![l1_part("core", l1::run_c08, l1::desc_c08, 400_000, 8_000_000, &["score_decides", "flavour_async", "flavour_thread", "flavour_global"])],
             custom: None,
         },
         Property {
             id: "C16",
             rule: "layer1 sweep: the cell (flavour x policy+weight x limit{none,1..4} x ttl{none,0,1,2,3} x max_memory{none,40,120,4096}) is selected by the first bytes over the complete table of 3300 cells, value type and history generated; catch_unwind around every operation; non-trivial = the case reached an overflow, a memory eviction or an expiry",
             assumptions: L1_ASSUME,
-            parts: vec![l1_part("core", l1::run_c16, l1::desc_c16, 80_000, 1_400_000, &["overflow", "memory_pressure", "expiry", "flavour_async", "flavour_thread", "flavour_global"])],
+            parts: vec![l1_part("core", l1::run_c16, l1::desc_c16, 500_000, 8_000_000, &["overflow", "memory_pressure", "expiry", "flavour_async", "flavour_thread", "flavour_global"])],
             custom: None,
         },
     ]
